@@ -6,6 +6,7 @@ import (
 	"os"
 	"path/filepath"
 	"runtime/debug"
+	"runtime/pprof"
 	"sort"
 	"strconv"
 	"time"
@@ -38,11 +39,19 @@ func main() {
 		fmt.Printf("unknown property %q\n", *prop)
 		os.Exit(2)
 	}
+	if pf := os.Getenv("GV_CPUPROFILE"); pf != "" {
+		if f, err := os.Create(pf); err == nil {
+			_ = pprof.StartCPUProfile(f)
+			defer pprof.StopCPUProfile()
+		}
+	}
 	if *mutant >= 0 {
 		os.Exit(runMutantChild(spec, *repo, *verif, *mutant))
 	}
 	seed, _ := strconv.Atoi(os.Getenv("VERIF_SEED"))
-	os.Exit(runProp(spec, *tier, *repo, *verif, seed))
+	code := runProp(spec, *tier, *repo, *verif, seed)
+	pprof.StopCPUProfile()
+	os.Exit(code)
 }
 
 func runProp(spec *propSpec, tier, repo, verif string, seed int) (code int) {
